@@ -17,6 +17,15 @@ package volatility
 //@ ensures[C05] "range" forall kk :: 0 <= kk && kk < len(result) ==> 0 - 1 <= result[kk] && result[kk] <= 1
 //@ ensures[C03] consumed(snapshots) == len(snapshots) && closed(result)
 //@ ensures[C04] forall kk :: 0 <= kk && kk < len(result) ==> hor(result, kk) <= hor(snapshots, kk)
+//@ rel[C18] "price" param lam real
+//@ rel[C18] "price" assume lam > 0 && len(second(snapshots)) == len(snapshots) && (forall k :: 0 <= k && k < len(snapshots) ==> pscaled(second(snapshots)[k], snapshots[k], lam))
+//@ rel[C18] "price" step forall i :: 0 <= i && i < len(snapshots) ==> second(arg(BollingerBands_Compute, 0, 0))[i] == lam * arg(BollingerBands_Compute, 0, 0)[i]
+//@ rel[C18] "price" step forall i :: 0 <= i && i < len(closings[1]) ==> second(closings[1])[i] == lam * closings[1][i]
+//@ rel[C18] "price" use[cond] stdS_pscale(arg(BollingerBands_Compute, 0, 0), second(arg(BollingerBands_Compute, 0, 0)), lam, b.BollingerBands.Period, _)
+//@ rel[C18] "price" step forall i :: 0 <= i && i < len(uppers) ==> second(uppers)[i] == lam * uppers[i] && second(lowers)[i] == lam * lowers[i]
+//@ rel[C18] "price" use forall i :: mul_cmp(lam, closings[1][i], uppers[i])
+//@ rel[C18] "price" use forall i :: mul_cmp(lam, lowers[i], closings[1][i])
+//@ rel[C18] "price" ensures len(second(result)) == len(result) && (forall k :: 0 <= k && k < len(result) ==> second(result)[k] == result[k])
 
 //@ func SuperTrendStrategy.Compute
 //@ requires consumed(snapshots) == 0
